@@ -370,23 +370,68 @@ def check_start(ctx, g, typ, kind, m, x0, flag, eps, cls, max_iter, ncomp):
                 ctx.violate(f"C05/{typ}/obj-vs-var/{order}",
                             f"object-level and variable-level results differ by {dd:.3g}; sweeps {len(a['hist']['x']) - 1} vs {len(b['hist']['x']) - 1}",
                             dict(rep0, level="both", order=order))
-    # closures handed to the optimisers
-    holder = make(typ, c, start, flag, eps_proj_physical=eps)
+    # closures handed to the optimisers, requested with every (host flag, requested flag in {explicit, None}) combination and
+    # from a physical host built with is_physicality_required=True
     var = to_var(typ, c, start, flag)
-    for nm in ("func_calc_proj_physical", "func_calc_proj_physical_with_var"):
-        for order in ORDERS:
+    variants = [("", flag, {"on_para_eq_constraint": flag}, False, ORDERS),
+                ("-opp", not flag, {"on_para_eq_constraint": flag}, False, ORDERS[:1]),
+                ("-dflt", flag, {}, False, ORDERS[1:]),
+                ("-phys", flag, {"on_para_eq_constraint": flag}, True, ORDERS[:1])]
+    for suffix, hflag, kw, phys, orders in variants:
+        for order in orders:
+            if phys:
+                holder = make(typ, c, rand_physical(np.random.default_rng(7), typ, kind, m), hflag, is_physicality_required=True,
+                              eps_proj_physical=eps, mode_proj_order=order)
+            else:
+                holder = make(typ, c, start, hflag, eps_proj_physical=eps, mode_proj_order=order)
+            for nm in ("func_calc_proj_physical", "func_calc_proj_physical_with_var"):
+                rep = dict(rep0, level=nm + suffix, order=order)
+                try:
+                    with contextlib.redirect_stdout(io.StringIO()):
+                        fv = np.array(getattr(holder, nm)(mode_proj_order=order, max_iteration=max_iter, **kw)(var.copy()), dtype=float)
+                except Exception as e:  # noqa
+                    ctx.violate(f"C05/{typ}/{nm}{suffix}/raises", f"{type(e).__name__}: {str(e)[:150]}", rep); continue
+                base = runs.get(("var", order))
+                if base is None or len(base["hist"]["x"]) - 1 >= max_iter:
+                    continue
+                want = base["res_var"]
+                if fv.shape != want.shape or np.linalg.norm(fv - want) > 2 * tol:
+                    ctx.violate(f"C05/{typ}/{nm}{suffix}/{order}",
+                                f"closure result differs from calc_proj_physical_with_var by {np.linalg.norm(fv - want) if fv.shape == want.shape else 'shape'}", rep)
+
+
+def check_maxiter(ctx, g, typ, kind, m, flag, order):
+    """`max_iteration` is obeyed by every entry point, the closures included: from a far start the loop runs exactly `mi` sweeps,
+    reports the max-iteration branch, and all entry points return the same (unconverged) iterate"""
+    c, _ = system(kind)
+    x0 = start_point(g, typ, kind, m, "far")
+    start = start_of(typ, kind, x0, flag, "var")
+    var = to_var(typ, c, start, flag)
+    eps = 1e-13
+    for mi in (1, 3):
+        rep = {"typ": typ, "system": kind, "m": m, "x0": np.asarray(x0).tolist(), "flag": flag, "eps": eps, "class": "far",
+               "max_iter": mi, "order": order, "kind": "maxiter"}
+        ctx.case(("maxiter", typ, kind, m, flag, order, mi, tuple(np.asarray(x0).tolist())))
+        rv = run_real(typ, kind, m, x0, flag, order, eps, "var", mi)
+        ro = run_real(typ, kind, m, start, flag, order, eps, "obj", mi)
+        if rv["err"] or ro["err"]:
+            ctx.violate(f"C05/{typ}/max-iteration/raises", f"{rv.get('msg') or ro.get('msg')}", rep); continue
+        if len(rv["hist"]["x"]) - 1 < mi:
+            continue                                # converged within mi sweeps: nothing to observe
+        for lvl, r in (("var", rv), ("obj", ro)):
+            if len(r["hist"]["x"]) - 1 != mi or not r["warned"]:
+                ctx.violate(f"C05/{typ}/{lvl}/max-iteration", f"max_iteration={mi}: {len(r['hist']['x']) - 1} sweeps, warning={r['warned']}", rep)
+        holder = make(typ, c, start, flag, eps_proj_physical=eps, mode_proj_order=order)
+        for nm in ("func_calc_proj_physical", "func_calc_proj_physical_with_var"):
             try:
                 with contextlib.redirect_stdout(io.StringIO()):
-                    fv = np.array(getattr(holder, nm)(on_para_eq_constraint=flag, mode_proj_order=order, max_iteration=max_iter)(var.copy()), dtype=float)
+                    fv = np.array(getattr(holder, nm)(on_para_eq_constraint=flag, mode_proj_order=order, max_iteration=mi)(var.copy()), dtype=float)
             except Exception as e:  # noqa
-                ctx.violate(f"C05/{typ}/{nm}/raises", f"{type(e).__name__}: {e}", dict(rep0, level=nm, order=order)); continue
-            base = runs.get(("var", order)) or runs.get(("var", "eq_ineq"))
-            if base is None or len(base["hist"]["x"]) - 1 >= max_iter:
-                continue
-            want = base["res_var"]
-            if fv.shape != want.shape or np.linalg.norm(fv - want) > 2 * tol:
-                ctx.violate(f"C05/{typ}/{nm}/{order}", f"closure result differs from calc_proj_physical_with_var by {np.linalg.norm(fv - want) if fv.shape == want.shape else 'shape'}",
-                            dict(rep0, level=nm, order=order))
+                ctx.violate(f"C05/{typ}/{nm}/max-iteration/raises", f"{type(e).__name__}: {str(e)[:150]}", rep); continue
+            if fv.shape != rv["res_var"].shape or np.max(np.abs(fv - rv["res_var"])) > 1e-9 * max(1.0, float(np.max(np.abs(start)))):
+                ctx.violate(f"C05/{typ}/{nm}/max-iteration",
+                            f"closure built with max_iteration={mi} does not return the iterate after {mi} sweeps "
+                            f"(differs by {np.max(np.abs(fv - rv['res_var'])) if fv.shape == rv['res_var'].shape else 'shape'}): the argument is not forwarded", rep)
 
 
 def oracle(ctx, volume=1):
@@ -420,6 +465,8 @@ def oracle(ctx, volume=1):
     extra += [("Gate", "qq", "physical", False, 1e-10), ("Gate", "g4", "physical", False, 1e-10), ("Gate", "g4", "near", True, 1e-8),
               ("Gate", "qqr", "near", False, 1e-8), ("Gate", "q", "near", False, 1e-10), ("Gate", "qr", "near", True, 1e-10),
               ("MProcess", "qr", "near", False, 1e-8), ("MProcess", "qr", "physical", True, 1e-12)]
+    for i, typ in enumerate(TYPES):
+        check_maxiter(ctx, g2, typ, "q", 2 if typ in ("Povm", "MProcess") else 1, bool(i % 2), ORDERS[i % 2])
     for rep in range(volume):
         for typ, kind, cls, flag, eps in extra:
             m = 2 if typ in ("Povm", "MProcess") else 1
@@ -443,6 +490,13 @@ def replay(ctx, data):
     print("replaying", {k: v for k, v in r.items() if k != "x0"})
     before = len(ctx.violations)
     c04.warm_siblings(r["system"])
+    if r.get("kind") == "maxiter":
+        g = ctx.npgen(33)
+        for i, typ in enumerate(TYPES):
+            check_maxiter(ctx, g, typ, "q", 2 if typ in ("Povm", "MProcess") else 1, bool(i % 2), ORDERS[i % 2])
+        for v in ctx.violations[before:]:
+            print(" ", v["signature"], "--", v["what"])
+        return 1 if any(v["signature"] == data.get("signature") for v in ctx.violations[before:]) else 0
     check_start(ctx, ctx.npgen(1), r["typ"], r["system"], r["m"], np.array(r["x0"], dtype=float), r["flag"], r["eps"],
                 r.get("class", "near"), r.get("max_iter", 1000), 8)
     for v in ctx.violations[before:]:
